@@ -11,6 +11,8 @@
 // Family 8 (emb.go) does the same with structs passed by pointer that embed nil pointers (promoted fields).
 // Family 9 (cfg.go) renders a subset of all of these on engines in debug / development mode, cache off,
 // auto-reload, sandbox, strict variables, through Engine.Render, RenderTo, Template.Render, RenderTo, ParseTemplate.
+// Family 10 (inc.go) enumerates the include-option grammar (with <hash literal | expression | pairs>, only, sandboxed,
+// ignore missing) on engines with a security policy, whether or not the parser accepts the form.
 package main
 
 import (
@@ -138,9 +140,15 @@ var valueExprs = []string{"xs", "ss", "is", "fs", "i64", "ids", "names", "lmt", 
 func snapshot(v interface{}) string {
 	var b strings.Builder
 	b.Grow(8192)
+	mapPath = map[uintptr]bool{}
 	snap(&b, reflect.ValueOf(v), map[uintptr]bool{}, 0)
 	return b.String()
 }
+
+// mapPath holds the maps on the path from the root to the value being written, so that a map that
+// (after a faulty render) contains itself ends the descent with a marker instead of recursing.
+// Maps reached twice along different paths are still written twice (each worker is single-threaded).
+var mapPath = map[uintptr]bool{}
 
 // typeName is reflect.Type.String, remembered (each worker is single-threaded)
 var typeNames = map[reflect.Type]string{}
@@ -214,6 +222,13 @@ func snap(b *strings.Builder, v reflect.Value, seen map[uintptr]bool, depth int)
 		if v.IsNil() {
 			b.WriteString(v.Type().String() + "(nil)")
 			return
+		}
+		if mp := v.Pointer(); mapPath[mp] {
+			b.WriteString(typeName(v.Type()) + "<cycle>")
+			return
+		} else {
+			mapPath[mp] = true
+			defer delete(mapPath, mp)
 		}
 		type kv struct {
 			k string
@@ -303,6 +318,7 @@ type program struct {
 	meth    bool              // family 7: the context holds struct values with pointer-receiver methods (meth.go)
 	emb     *embSpec          // family 8: the context holds structs by pointer that embed nil pointers (emb.go)
 	cfg     *cfgSpec          // family 9: engine configuration and entry point (cfg.go); nil = twig.New() and Engine.Render
+	inc     *incSpec          // family 10: include-option grammar on engines with a security policy (inc.go)
 }
 
 var filters = []string{"default", "escape", "e", "upper", "lower", "trim", "raw", "length", "count", "join", "split", "date", "url_encode", "capitalize", "title",
@@ -364,6 +380,7 @@ func programs(thorough bool, add func(program)) {
 	methPrograms(thorough, add)
 	embPrograms(thorough, add)
 	cfgPrograms(thorough, add)
+	incPrograms(thorough, add)
 	chainPrograms(thorough, add)
 }
 
@@ -594,6 +611,9 @@ func pristine() string {
 }
 
 func runProgram(p program) *vlib.Outcome {
+	if p.inc != nil {
+		return runIncProgram(p)
+	}
 	o := &vlib.Outcome{Counters: map[string]int64{"renders": 2, "programs_" + p.family: 1}}
 	var render func(ctx map[string]interface{}) (string, error)
 	if p.cfg != nil {
@@ -720,7 +740,7 @@ func main() {
 	vlib.Main(vlib.Spec{
 		ID:    "C18",
 		Level: "exploration",
-		Rule: "every program of nine families — (1) each of the 31 built-in filters x 17 (thorough 38) argument shapes x 41 value expressions, printed and assigned-then-merged/sorted/reversed; " +
+		Rule: "every program of ten families — (1) each of the 31 built-in filters x 17 (thorough 38) argument shapes x 41 value expressions, printed and assigned-then-merged/sorted/reversed; " +
 			"(2) every ordered pair of 15 x 14 (thorough 26 x 26) collection filters on each value expression, the intermediate value observed before and after the second filter; " +
 			"(3) 28 scope programs per value expression (set / loop variable / include with, only / macro parameter / import named like a caller's key, functions merge, max, min, cycle, slice window then merge); " +
 			"(4) name collisions: 27 programs per top-level key K of the context in which K is an import alias, from-import alias, imported macro name, set target, loop key/value variable, macro name, macro parameter, block name (also through extends) or include-with key, " +
@@ -737,6 +757,8 @@ func main() {
 			"and 10 containers ([]*T with spare capacity, map[string]*T, untyped lists, []T and *[]T controls) x 4 (thorough 10) patterns (for, key-value for, index 0, first / last; index by key, twice, through reverse / slice / default / merge, macro, include, element to macro / include) x 9 fields per type (own, promoted through a value, through one and through two pointers, the embedded parts themselves, a missing one) x 13 bodies (print, if, is defined, default, for … else, set, null / empty / iterable tests, ~ == length not and, twice, json_encode of the struct and the field, list / hash literal / filter / function argument, sub-attribute, include with); " +
 			"(9) ENGINE CONFIGURATION x ENTRY POINT: a subset of families 1, 3, 4, 7, 8 (quick 1 048 programs: 24 values x 14 collection filters printed-assigned-merged-sorted-reversed, the 28 scope programs on 6 values, the 27 collision programs on 2 keys, 5 x 6 bindings on 2 values, 250 method programs, 180 embedded-pointer programs; thorough 7 010) on engines set up as plain, SetDebug(true), SetDevelopmentMode(true), SetCache(false) with a loader, SetAutoReload(true) with template files, EnableSandbox(allow-all policy) with the program inside `include … sandboxed`, and all of these together with strict variables " +
 			"(thorough: also debug at the verbose level, the default sandbox policy, strict variables alone, debug + cache off, development mode from files, a cached array loader), rendered through Engine.Render, Engine.RenderTo and Template.Render of the loaded template (thorough: also Template.RenderTo and a template from Engine.ParseTemplate); there the caller's data is compared a third time after an unrelated render on another engine — " +
+			"(10) INCLUDE-OPTION grammar on engines with a security policy: `include T` x 19 with-clauses (none, 2 hash literals, 9 context variables / paths holding maps incl. a typed one, 3 non-hashes, 2 filtered hashes, old-style pairs) x {nothing, only, sandboxed, only sandboxed, sandboxed only} x {nothing, ignore missing before / after the with clause} " +
+			"x {3 included bodies (reading, re-setting, merging the passed names), missing target} x {allow-all policy, default policy, no policy} = 3 420 programs on a context holding the hashes `opts`, `topts` and many variables that are not keys of them; forms the parser rejects are rendered all the same (a failing render must leave the data alone), and a probe render with another top-level map sharing the hashes is compared with the same on fresh data — " +
 			"rendered twice on a fresh engine with a fresh context of slices with sentinel-filled spare capacity, arrays, typed/untyped maps, structs, pointers nested two deep; " +
 			"non-trivial = the program renders without error (the filters really ran on the data); in family 7: and the engine called at least one method of the caller's types; in family 8: and the field read lies behind an embedded pointer that is nil (decided on the Go values by reflection)",
 		Assumptions: []string{
